@@ -35,6 +35,8 @@ pub enum Action {
     CloseTcp,
     /// a debugger attaches (TCP connect + `initialize`) and stays connected
     DapConnect,
+    /// `disconnect` with the optional arguments a client may send (`terminateDebuggee: false`, `restart: false`)
+    DapDisconnectKeep,
 }
 
 pub const STATES: [State; 5] = [
@@ -54,6 +56,7 @@ pub fn orders(state: State) -> Vec<(&'static str, Vec<Action>)> {
         v.push(("shutdown,exit,disconnect", vec![LspShutdown, LspExit, DapDisconnect]));
         v.push(("close-stdin,close-tcp", vec![CloseStdin, CloseTcp]));
         v.push(("close-tcp,shutdown,exit", vec![CloseTcp, LspShutdown, LspExit]));
+        v.push(("disconnect-keep,shutdown,exit", vec![DapDisconnectKeep, LspShutdown, LspExit]));
     } else {
         // a debugger that attaches while the server is on its way out
         v.push(("shutdown,connect,exit", vec![LspShutdown, DapConnect, LspExit]));
@@ -257,6 +260,9 @@ pub fn run_history(bin: &str, dir: &Path, port: u16, state: State, actions: &[Ac
             Action::LspExit => send_lsp(&mut stdin, json!({"jsonrpc": "2.0", "method": "exit", "params": null})),
             Action::DapDisconnect => {
                 let _ = send_dap(&mut tcp, "disconnect", json!({}));
+            }
+            Action::DapDisconnectKeep => {
+                let _ = send_dap(&mut tcp, "disconnect", json!({"restart": false, "terminateDebuggee": false}));
             }
             Action::CloseStdin => {
                 stdin = None;
@@ -498,7 +504,7 @@ pub fn run(ctx: &Ctx, replay: Option<&Value>) -> i32 {
     }
     let code = ctx.finish(
         "model_checking",
-        "all client-visible shutdown histories: 5 session states (no debugger, attached idle, test running, paused, finished) x 10 orders of LSP shutdown/exit, DAP disconnect, a debugger attaching late, closing stdin, closing the TCP connection x inter-message gap patterns, each run twice on the real `mos lsp` process (stdio + TCP); observed: exit status, exit within a 5 s horizon, debug port free afterwards, panics on stderr. A Promela model of the shutdown protocol is explored exhaustively with spin and every observed outcome must lie in the model's outcome set for that history",
+        "all client-visible shutdown histories: 5 session states (no debugger, attached idle, test running, paused, finished) x 11 orders of LSP shutdown/exit, DAP disconnect (plain and with `terminateDebuggee: false`), a debugger attaching late, closing stdin, closing the TCP connection x inter-message gap patterns, each run twice on the real `mos lsp` process (stdio + TCP); observed: exit status, exit within a 5 s horizon, debug port free afterwards, panics on stderr. A Promela model of the shutdown protocol is explored exhaustively with spin and every observed outcome must lie in the model's outcome set for that history",
         true,
         &[
             "timing is a finite menu of gaps (20 ms quick; 0/20/200 ms thorough); interleavings inside the real process are not controlled",
